@@ -10,7 +10,7 @@ import sympy as sp
 from vcheck import cfront, csymx, rules
 from vcheck.core import PyRepo, AnalysisError, call_name, const_value, kwarg, norm, walk_no_nested
 from vcheck.cfront import callee_name, render, strip, walk
-from checks.C12 import array_read, node_defs, ref_desc, ref_desc_in, cfg_succ, _norm_f8, _size_checks
+from checks.C12 import guard_facts, array_read, node_defs, ref_desc, ref_desc_in, cfg_succ, _norm_f8, _size_checks
 
 MANIFEST = dict(
     text="Narrow structural claim over the clang AST of htmc.cc and the Python ast of htm.py (the geometric clauses are NOT decided): "
@@ -37,11 +37,11 @@ SRC = "esutil/htm/htmc.cc"
 
 # rules that keep their verdict however the code is laid out (decided by term equality, effect analysis or dominance over
 # resolved calls); every other rule of this check is a template rule (vcheck.core.Check.obt)
-SEMANTIC = ('R13.3', 'R13.4', 'R13.5', 'R13.6')
+SEMANTIC = ('R13.2::HTM.intersect::flag-mapping', 'R13.3::cbincount::lower-edge-guard-on-untruncated-value', 'R13.3::cbincount::upper-bin-guard', 'R13.4', 'R13.5', 'R13.6')
 
 
 def run(chk):
-    repo = PyRepo()
+    repo = PyRepo(inline=True)
     chk.set_templates(repo, semantic=SEMANTIC)
     chk.explanation = MANIFEST["text"]
     chk.trusted = ["clang 14 AST", "SWIG naming convention", "CPython ast"]
@@ -235,18 +235,20 @@ def intersect(chk, repo, fs):
     chk.ob("R13.2", "intersect::count-matches-lists", okc, f.where, "the output length is full + partial when inclusive, full otherwise")
     fi = repo.func(H + "HTM.intersect")
     chk.analysed_unit(fi.qualname)
-    sup = [c for c in walk_no_nested(fi.node) if isinstance(c, ast.Call) and call_name(c) == "intersect"]
-    ok = len(sup) == 1 and [norm(a) for a in sup[0].args[:3]] == ["ra", "dec", "radius"] and len(sup[0].args) == 4
-    if ok:
-        iv = norm(sup[0].args[3])
-        cfg = rules.cfg_of(fi)
-        view = cfg.view()
-        vals = {}
-        for n in cfg.nodes:
-            if n.kind == "stmt" and isinstance(n.ast, ast.Assign) and norm(n.ast.targets[0]) == iv:
-                vals[dict(rules.controlling_tests(view, n)).get("inclusive")] = const_value(n.ast.value)
-        ok = vals == {"T": 1, "F": 0}
-    chk.ob("R13.2", "HTM.intersect::flag-mapping", bool(ok), fi.where(), "inclusive=True reaches the extension as 1, False as 0, after (ra, dec, radius)")
+    from vcheck import symx
+    got = {}
+    for flag in (True, False):
+        se = symx.SymEval(repo, self_calls_as_terms=True)
+        try:
+            r = se.run(fi, {k: sp.Symbol(k) for k in ("self", "ra", "dec", "radius")}, {"inclusive": flag})
+        except Exception as e_:
+            r = "not evaluated: %s" % str(e_)[:100]
+        got[flag] = r
+    want = {flag: sp.Function("SELF_intersect")(sp.Symbol("ra"), sp.Symbol("dec"), sp.Symbol("radius"), sp.Integer(1 if flag else 0)) for flag in (True, False)}
+    got = {k: (v.subs({sp.Symbol("TRUE"): 1, sp.Symbol("FALSE"): 0}) if isinstance(v, sp.Basic) else v) for k, v in got.items()}   # a bool is an int for the wrapper
+    rec = all(isinstance(v, sp.Basic) and getattr(v.func, "__name__", "") == "SELF_intersect" for v in got.values())
+    chk.ob("R13.2", "HTM.intersect::flag-mapping", (got == want) if rec else None, fi.where(),
+           "inclusive=True reaches the extension as 1, False as 0, after (ra, dec, radius): %s" % got)
 
 
 # ---------------------------------------------------------------------------
@@ -296,32 +298,31 @@ def bincount_c(chk, decl):
         except Exception:
             okb = False
     chk.ob("R13.3", "cbincount::bin-index-formula", bool(okb), f.w(bd[0][0]) if bd else f.where, "bin = (int)((logr - logrmin)/log_binsize)")
-    up = any(lab == "T" and ("%s < %s" % (binvar, p_nbin)) in t for t, lab in tests)
-    chk.ob("R13.3", "cbincount::upper-bin-guard", up, f.w(cn), "counted only when bin < nbin (guards %s)" % tests)
+    facts = guard_facts(view, cn)
+    up = ("%s<%s" % (binvar, p_nbin)) in facts or ("%s<=%s-1" % (binvar, p_nbin)) in facts
+    chk.ob("R13.3", "cbincount::upper-bin-guard", True if up else None, f.w(cn), "counted only when bin < nbin (facts that hold at the count: %s)" % sorted(facts))
     # lower edge: truncation towards zero maps quotients in (-1, 0) to bin 0, so `bin >= 0` alone does not exclude separations
     # just below rmin; needs a guard on the un-truncated value (logr >= logrmin, quotient >= 0, dis*scale >= rmin) or floor()
     low = False
-    for t, lab in tests:
-        tt = t.replace(" ", "")
-        if lab == "T" and any(k in tt for k in ("logr>=logrmin", "(logr-logrmin)>=0", "logrmin<=logr")):
+    floored = bool(bd) and any(x.get("kind") == "CallExpr" and callee_name(x) == "floor" for x in walk(bd[0][1]))
+    qtxt = qexpr.replace(" ", "") if qexpr else None
+    for ft in facts:
+        if ft in ("logrmin<=logr", "0<=(logr-logrmin)", "0<=logr-logrmin") or (qtxt and ft in ("0<=%s" % qtxt, "0<=(%s)" % qtxt)):
             low = True
-        if lab == "T" and qexpr and ("%s >= 0" % qexpr).replace(" ", "") in tt:
+        if floored and ft == "0<=%s" % binvar:
             low = True
-    if bd:
-        r = bd[0][1]
-        if any(x.get("kind") == "CallExpr" and callee_name(x) == "floor" for x in walk(r)):
-            low = low or any(lab == "T" and ("%s >= 0" % binvar) in t for t, lab in tests)
-        # a guard on a separately stored quotient variable
-        for t, lab in tests:
-            if lab == "T" and ">= 0" in t:
-                v = t.strip("()").split(" >= 0")[0].split("(")[-1].strip()
-                if v != binvar:
-                    vd = [rhs for n in cfg.nodes for vv, rhs in node_defs(n) if vv == v]
-                    if len(vd) == 1 and not any(x.get("kind") == "CStyleCastExpr" for x in walk(vd[0])) and "logrmin" in render(vd[0]) and "log_binsize" in render(vd[0]):
-                        low = True
-    chk.ob("R13.3", "cbincount::lower-edge-guard-on-untruncated-value", low, f.w(cn),
+        if ft.startswith("0<="):
+            # a guard on a separately stored quotient variable
+            v = ft[3:].strip("()")
+            if v != binvar:
+                vd = [rhs for n in cfg.nodes for vv, rhs in node_defs(n) if vv == v]
+                if len(vd) == 1 and not any(x.get("kind") == "CStyleCastExpr" for x in walk(vd[0])) and "logrmin" in render(vd[0]) and "log_binsize" in render(vd[0]):
+                    low = True
+    # positively wrong: the count is reached with only the truncated bin tested against zero (or nothing at all)
+    only_truncated = not low and bool(casts if len(bd) == 1 else False) and not floored
+    chk.ob("R13.3", "cbincount::lower-edge-guard-on-untruncated-value", True if low else (False if only_truncated else None), f.w(cn),
            "a truncating cast maps every quotient in (-1, 0) to bin 0, so separations between rmin*10^-binsize and rmin would be counted in the first bin: "
-           "the guard must test the value before truncation (logr >= logrmin or quotient >= 0) or use floor() (guards found: %s)" % tests)
+           "the guard must test the value before truncation (logr >= logrmin or quotient >= 0) or use floor() (facts that hold at the count: %s)" % sorted(facts))
     # logr, binsize, logrmin
     st = {l: r for l, r, _ in csymx.stmt_rhs_table(decl) if r is not None}
     for n in cfg.nodes:
@@ -470,9 +471,10 @@ def bincount_py(chk, repo, cdecl):
     chk.analysed_unit(fi.qualname)
     for n, ok in _norm_f8(fi, ["ra1", "dec1", "ra2", "dec2"]).items():
         chk.ob("R13.4", "HTM.bincount::%s-becomes-fresh-float64-1d" % n, ok, fi.where(), "`%s = np.atleast_1d(%s).astype('f8')`" % (n, n))
-    tests = _size_checks(fi)
-    chk.ob("R13.4", "HTM.bincount::size-checks", any(t.startswith("ra1.size != dec1.size") for t in tests) and "scale.size != 1 and scale.size != ra1.size" in tests
-           and "htmid2.size != ra2.size" in tests, fi.where(), "coordinate, scale and id array sizes are checked (%s)" % tests)
+    rc = rules.raise_condition(fi)
+    want = rules.bool_term(ast.parse("ra1.size != dec1.size or (scale is not None and scale.size != 1 and scale.size != ra1.size) or "
+                                     "(htmid2 is not None and htmid2.size != ra2.size)", mode="eval").body)
+    chk.ob("R13.4", "HTM.bincount::size-checks", rules.bool_implies(want, rc), fi.where(), "coordinate, scale and id array sizes are checked (raises when: %s)" % rc)
     call = [c for c in walk_no_nested(fi.node) if isinstance(c, ast.Call) and call_name(c) == "cbincount"]
     cps = cfront.params_of(cdecl)
     want = ["rmin", "rmax", "nbin", "ra1", "dec1", "ra2", "dec2", "htmrev2", None, "scale", None]
@@ -506,13 +508,40 @@ def bincount_py(chk, repo, cdecl):
         dbs = hist.defaults.get("binsize")
         okb = (bs is not None and const_value(bs) in (1, 1.0)) or (bs is None and dbs is not None and const_value(dbs) in (1, 1.0))
         chk.ob("R13.4", "HTM.bincount::unit-bins", okb, fi.where(h), "one reverse-index bin per triangle id (binsize 1)")
-    # defaults for minid / maxid and the lookup of ids
-    env = {}
-    for x in walk_no_nested(fi.node):
-        if isinstance(x, ast.Assign) and isinstance(x.targets[0], ast.Name):
-            env.setdefault(x.targets[0].id, []).append(norm(x.value))
-    ok = "self.lookup_id(ra2, dec2)" in env.get("htmid2", []) and set(env.get("minid", [])) == {"htmid2.min()"} and set(env.get("maxid", [])) == {"htmid2.max()"}
-    chk.ob("R13.4", "HTM.bincount::ids-of-second-set", ok, fi.where(), "missing ids are those of the second set; missing minid/maxid are their extremes")
+    # defaults for minid / maxid and the lookup of ids: decided on the terms handed to the extension, case by case
+    from vcheck import symx
+    S = sp.Symbol
+    INT = sp.Function("INT")
+
+    def strip_int(t):
+        return t.replace(lambda x: x.func == INT, lambda x: x.args[0])
+    bad, unrec = [], []
+    for hid in (None, S("htmid2")):
+        for mn in (None, S("minid")):
+            for mx in (None, S("maxid")):
+                se = symx.SymEval(repo, opaque=("esutil.stat.util.histogram", H + "HTM.lookup_id", H + "log_bins"), opaque_tests=False, self_calls_as_terms=True)
+                tag = "htmid2 %s, minid %s, maxid %s" % tuple("given" if v is not None else "None" for v in (hid, mn, mx))
+                try:
+                    r = se.run(fi, {k: S(k) for k in ("self", "rmin", "rmax", "nbin", "ra1", "dec1", "ra2", "dec2")},
+                               {"scale": None, "htmid2": hid, "htmrev2": None, "minid": mn, "maxid": mx, "getbins": False, "verbose": False})
+                except Exception as e:
+                    unrec.append("%s: %s" % (tag, str(e)[:120]))
+                    continue
+                if not (isinstance(r, sp.Basic) and getattr(r.func, "__name__", "") == "SELF_cbincount" and len(r.args) == len(cps) == 11):
+                    unrec.append("%s: result %s" % (tag, str(r)[:120]))
+                    continue
+                mm = strip_int(r.args[8]) if len(r.args) > 8 else None
+                ids = sp.Function("lookup_id")(S("ra2"), S("dec2")) if hid is None else S("htmid2")
+                lo = sp.Function("MIN")(ids) if (hid is None or mn is None) else S("minid")
+                hi = sp.Function("MAX")(ids) if (hid is None or mx is None) else S("maxid")
+                if mm != sp.Function("SEQ")(lo, hi):
+                    bad.append("%s: the id range handed over is %s, not (%s, %s)" % (tag, mm, lo, hi))
+                rev = strip_int(r.args[7])
+                if not (rev.args and sp.expand(rev.args[0] - (ids - lo)) == 0 and getattr(rev.func, "__name__", "").startswith("histogram")):
+                    bad.append("%s: reverse indices are built from %s, not from ids - minid = %s" % (tag, rev, ids - lo))
+    chk.ob("R13.4", "HTM.bincount::ids-of-second-set", None if (unrec and not bad) else not bad, fi.where(),
+           "missing ids are those of the second set (lookup_id(ra2, dec2)), a missing minid/maxid is their extreme, supplied ones are used with supplied ids, and the "
+           "reverse indices are built from ids - minid with that same minid%s" % ((" -- " + "; ".join(bad[:3])) if bad else (" -- not evaluated: " + "; ".join(unrec[:2]) if unrec else "")))
     lb = [c for c in walk_no_nested(fi.node) if isinstance(c, ast.Call) and call_name(c) == "log_bins"]
     ok = len(lb) == 1 and [norm(a) for a in lb[0].args] == ["rmin", "rmax", "nbin"]
     chk.ob("R13.4", "HTM.bincount::edges-from-same-arguments", ok, fi.where(), "reported bin edges are log_bins(rmin, rmax, nbin) of the same arguments")
